@@ -938,6 +938,10 @@ class SymExec:
                     snap[(lname, path)] = oldv
                     if oldv is not None and oldv[0] in ("iter", "iter*", "iterk"):
                         newv = ("iter*", oldv[1])
+                    elif oldv is not None and oldv[0] == "tuple" and 2 <= len(oldv[1]) <= 4:
+                        # a tuple of accumulators: one havoc value per component
+                        nm0 = lname + "".join("." + h[1] for h in path)
+                        newv = ("tuple", tuple(("hv", tag, "%s.%d" % (nm0, i), bb) for i in range(len(oldv[1]))))
                     else:
                         newv = ("hv", tag, lname + "".join("." + h[1] for h in path), bb)
                     if not path:
@@ -1639,6 +1643,8 @@ class SymExec:
             if a[0] == "ptr" and a[1][0] == "L" and v[0] == "array" and len(v[1]) <= 8:
                 # a local array with known elements, iterated by reference
                 return ("iter", ("array", tuple(("ref", e) for e in v[1])))
+            if a[0] == "ref":
+                return ("iter", a)        # `X.iter()` on a constant array reads like `for x in &X`
         if name.endswith("IntoIterator>::into_iter") or name == "core::iter::traits::collect::IntoIterator::into_iter":
             a = args[0]
             if a[0] in ("iter", "iter*"):
